@@ -12,7 +12,12 @@ AUTOMATION_ADMINS = ["auto"]
 WEBUI = ["password", "TOTP", "U2F"]          # getRequiredWebUIAuthLevel() = 2|64|8
 GROUPS = {"gadm": ["admins", "staff"], "grobot": ["robots"], "alice": ["staff"], "bob": ["staff"],
           "adm": ["staff"], "auto": ["staff"]}
-USERS = [("alice", 1), ("adm", 1), ("gadm", 1), ("auto", 1), ("bob", 1), ("carol", 0)]
+USERS = [("alice", 1), ("adm", 1), ("gadm", 1), ("auto", 1), ("bob", 1), ("carol", 0),
+         # stored rows whose names other login names nearly coincide with (storage-key discipline)
+         ("j-doe", 1), ("svc-deploy", 1), ("svc_deploy", 1)]
+# login names WITHOUT a stored row (every user before the first registration) that differ from a
+# stored name only by what a sloppy lookup ignores: '_' (SQL LIKE wildcard), letter case, a prefix
+TWINS = {"j_doe": "j-doe", "J-DOE": "j-doe", "Bob": "bob", "j-do": "j-doe", "j-doe2": "j-doe", "%": "bob"}
 PW, TOTP, U2F, BOOT = 2, 64, 8, 256
 ROLE_NAME = {"alice": "user", "adm": "admin-by-name", "gadm": "admin-by-group", "auto": "automation-admin"}
 
@@ -57,6 +62,8 @@ def target_kind(r):
         return "other"
     if t in ("robot", "grobot"):
         return "automation-identity"
+    if t in TWINS:
+        return "near-name-of-" + TWINS[t]
     return "nonexistent"
 
 
@@ -64,6 +71,39 @@ def key_of(r):
     return "op=%s:action=%s:role=%s%s:level=%d:target=%s:index=%s" % (
         r["op"], r["action"], ROLE_NAME.get(r["actor"], r["actor"]), "+dirdown" if r["dirdown"] else "",
         r["level"], target_kind(r), r["index"])
+
+
+def near_names(ctx):
+    """Users without a stored row whose login name nearly coincides with a stored one, doing every
+    self-service operation; administrators naming them; the owner of an exact row next to a near one."""
+    out = []
+    twins = list(TWINS) if not ctx.quick() else ["j_doe", "J-DOE", "Bob", "j-do", "%"]
+    for actor in twins + ["svc_deploy", "svc-deploy"]:
+        for level in [PW, PW | U2F]:
+            out.append(req(actor, 0, level, "view", "-", "", "-", 0, 0))
+            for target in [actor, TWINS.get(actor, "svc-deploy")]:
+                out.append(req(actor, 0, level, "totpgen", "-", target, "-", 0, 0))
+                out.append(req(actor, 0, level, "u2fbeg", "-", target, "-", 0, 0))
+                out.append(req(actor, 0, level, "wabeg", "-", target, "-", 0, 0))
+                for pend, proof in [(1, 1), (0, 1)]:
+                    out.append(req(actor, 0, level, "totpval", "-", target, "-", pend, proof))
+                    out.append(req(actor, 0, level, "u2ffin", "-", target, "-", pend, proof))
+                    out.append(req(actor, 0, level, "wafin", "-", target, "-", pend, proof))
+                for a, i in [("Delete", "2"), ("Disable", "11"), ("Update", "1")]:
+                    out.append(req(actor, 0, level, "mu2f", a, target, i, 0, 0))
+                for a, i in [("Delete", "22"), ("Disable", "21")]:
+                    out.append(req(actor, 0, level, "mtotp", a, target, i, 0, 0))
+    for admin in ["adm", "gadm"]:
+        for level in [PW, PW | U2F]:
+            for target in twins + ["svc_deploy"]:
+                if "%" in target or target != target.strip():
+                    continue
+                for op, a, i, pend, proof in [("view", "-", "-", 0, 0), ("botp", "-", "-", 0, 0), ("add", "-", "-", 0, 0),
+                                              ("del", "-", "-", 0, 0), ("u2fbeg", "-", "-", 0, 0), ("u2ffin", "-", "-", 1, 1),
+                                              ("wabeg", "-", "-", 0, 0), ("wafin", "-", "-", 1, 1),
+                                              ("mu2f", "Delete", "2", 0, 0), ("mtotp", "Disable", "21", 0, 0)]:
+                    out.append(req(admin, 0, level, op, a, target, i, pend, proof))
+    return out
 
 
 def matrix(ctx):
@@ -74,8 +114,8 @@ def matrix(ctx):
     if not quick:
         actors += [("alice", 1), ("auto", 1)]
         levels += [U2F, TOTP, PW | TOTP | U2F, 0]
-    out = []
-    # first: the cells the property text singles out (also what a reverted repair would hit first)
+    out = near_names(ctx)
+    # the cells the property text singles out (also what a reverted repair would hit first)
     for actor, level in [("alice", PW), ("alice", PW | U2F), ("adm", PW), ("adm", PW | TOTP), ("adm", PW | U2F),
                          ("gadm", PW | U2F)]:
         for op, pend, proof in [("u2fbeg", 0, 0), ("u2ffin", 1, 1), ("wabeg", 0, 0), ("wafin", 1, 1)]:
@@ -246,7 +286,9 @@ def canon_impl(l):
     if f.get("chg", "-") != "-":
         effs += ["chg:" + name(h) for h in f["chg"].split(",")]
     if f.get("read", "none") != "none":
-        effs.append("read:" + name(f["read"]))
+        effs += ["read:" + name(h) for h in f["read"].split(",")]
+    if f.get("copy", "-") != "-":
+        effs += ["copy:%s:%s" % tuple(name(h) for h in x.split(">")) for x in f["copy"].split(",")]
     if f.get("list") == "1":
         effs.append("list")
     if f.get("cert", "none") != "none":
@@ -375,6 +417,7 @@ def run(ctx):
             cells.add((r["op"], r["action"], r["actor"], r["dirdown"], r["level"], target_kind(r)))
             for e in effs:
                 kind, _, h = e.partition(":")
+                h = h.split(":")[-1]
                 if h and c.unhexs(h) != r["actor"]:
                     other_allowed[r["op"]] += 1
         if "unparsed" in l or cls == "?":
